@@ -7,6 +7,7 @@ by themselves, every bridge is checked by the kernel.
 
 * `rs_bridge_cases` : case analysis on every conditional and `match` of both sides, then `simp_all`;
 * `rs_bridge_bits`  : two bitboard expressions built from `&&&`, `|||`, `^^^`, `~~~` compared bit by bit.
+* `rs_bridge_split`, `rs_bridge_hsplit` : see below.
 Each either closes all goals or fails (so that the next rung of the ladder is tried).
 -/
 namespace Arimaa.Gen.Bridge
@@ -36,7 +37,7 @@ macro "rs_bridge_bits" : tactic => `(tactic| (
   grind))
 
 macro "rs_bridge_cases" : tactic => `(tactic| (
-  simp only [Bool.cond_eq_ite]
+  try simp only [Bool.cond_eq_ite]
   repeat' (first | rfl | split)
   all_goals (first | rfl | (simp_all [Arimaa.Rt.Res.bind, Arimaa.Rt.Res.guard]; done) | rs_bridge_bits |
     (simp_all [Arimaa.Rt.Res.bind, Arimaa.Rt.Res.guard, Nat.ble_eq, Nat.blt_eq] <;> omega))))
@@ -46,6 +47,15 @@ that run the same fallible sub-computations in a different order or nesting are 
 macro "rs_bridge_split" : tactic => `(tactic| (
   simp only [Bool.cond_eq_ite, Arimaa.Rt.Res.bind, Arimaa.Rt.unwrap]
   repeat' (first | rfl | split)
+  all_goals (first | rfl | (simp_all [Arimaa.Rt.Res.bind, Arimaa.Rt.Res.guard]; done) | rs_bridge_bits |
+    (simp_all [Arimaa.Rt.Res.bind, Arimaa.Rt.Res.guard, Nat.ble_eq, Nat.blt_eq] <;> omega))))
+
+/-- like `rs_bridge_split`, but after every case split the equations it introduced (`e = some x` for a `match` whose
+discriminant `e` is not a variable) are rewritten everywhere, so that a second `match` on the same `e` -- on the
+other side, or behind an `unwrap` -- follows the same branch -/
+macro "rs_bridge_hsplit" : tactic => `(tactic| (
+  simp only [Bool.cond_eq_ite, Arimaa.Rt.Res.bind, Arimaa.Rt.unwrap]
+  repeat' (first | rfl | (split <;> try (simp only [*] at *)))
   all_goals (first | rfl | (simp_all [Arimaa.Rt.Res.bind, Arimaa.Rt.Res.guard]; done) | rs_bridge_bits |
     (simp_all [Arimaa.Rt.Res.bind, Arimaa.Rt.Res.guard, Nat.ble_eq, Nat.blt_eq] <;> omega))))
 
